@@ -89,6 +89,10 @@ type sim struct {
 	acctByAddr map[common.Address]*acct
 	contracts  []*contract
 	clientVals []*clientVal
+	// genesisOp: client account -> the genesis validator it operates (Senators V1..V3 are
+	// operated by C1..C3, so that deposits and withdrawals reach an existing validator from the
+	// first block on)
+	genesisOp map[common.Address]*chainkit.ValKey
 	nextValKey int
 
 	reg      map[common.Hash]*entry
@@ -178,6 +182,13 @@ func runC17(r *kit.Run) {
 		s.genesis.GasLimit = genesisGasLimit
 		s.netID = s.genesis.NetworkId
 		s.accts = makeAccounts()
+		s.genesisOp = map[common.Address]*chainkit.ValKey{}
+		for i := 1; i < nv; i++ {
+			gv := s.genesis.Validators[keys[i].Addr]
+			gv.OperatorAddress = s.accts[i].addr
+			s.genesis.Validators[keys[i].Addr] = gv
+			s.genesisOp[s.accts[i].addr] = keys[i]
+		}
 		for i, a := range s.accts {
 			s.acctByAddr[a.addr] = a
 			if a.poor {
